@@ -10,6 +10,7 @@ pub mod c07;
 pub mod c08;
 pub mod c09;
 pub mod c10;
+pub mod c11;
 pub mod pairs;
 pub mod util;
 
@@ -27,6 +28,7 @@ pub fn run(ctx: &Ctx) -> PropResult {
         "C08" => c08::run(ctx),
         "C09" => c09::run(ctx),
         "C10" => c10::run(ctx),
+        "C11" => c11::run(ctx),
         other => Err(format!("no monitor for {}", other)),
     }
 }
